@@ -53,6 +53,12 @@ func checkC12(c *Ctx) {
 		r.Undecided("C12.authorised", "role", "-", "no refund function (mint + pool delete) found")
 		return
 	}
+	// the refund equals what was taken only if conversions truncate (C11), and a transfer is released for
+	// expiry only by a batch timeout measured against an observed height (C13)
+	c.include("amount", "C11", rulesIn("C11.convert-truncates"))
+	c.includeKeys("expiry", "C13", rulesIn("C13.timeout-guard"), func(rule, key string) bool {
+		return strings.Contains(key, "no-projection") || strings.Contains(key, "guard:")
+	})
 	isRefund := map[*ssa.Function]bool{}
 	for _, f := range rfs {
 		isRefund[f] = true
